@@ -52,7 +52,7 @@ goalign reformat fasta -i align.fasta
 			}
 
 			a := <-aligns.Achan
-			if aligns.Err != nil {
+			if a == nil {
 				err = aligns.Err
 				io.LogError(err)
 				return
